@@ -170,3 +170,20 @@ func runRealWithOrders(x *mc.X, c *Case, root *Node, pre reflect.Value, orders [
 	zh.Reset()
 	return rr
 }
+
+// installReplayOrders makes struct-field range sites follow the recorded orders.
+func installReplayOrders(orders [][]int) {
+	oi := 0
+	zverif.OrderHook = func(site string, n int) []int {
+		if !strings.HasPrefix(site, "struct.go") {
+			return nil
+		}
+		if oi < len(orders) && len(orders[oi]) == n {
+			o := orders[oi]
+			oi++
+			return o
+		}
+		oi++
+		return nil
+	}
+}
